@@ -14,6 +14,7 @@ Decided (shape engine: spaces + dimensions + provenance tags)
   U4  get_depths: sum(y x f^2) / sum(f^2) over the stored slots with f the first principal component, y the y-coordinate of the
       slot's channel for the spike's template -> micrometres per spike
   +   U1-U4 also: no result is memoised (early return from storage that outlives the call) under a key that ignores one of the arguments
+  +   U1: no display option (template_scaling, tagged `display-scale`) enters the amplitudes in physical units
 Not decided: numeric equality, NaN propagation, the clipping of negative feature values.
 """
 import ast
@@ -85,6 +86,12 @@ def run(ctx):
         if isinstance(sa, Arr) and isinstance(sa.elem, Q):
             ctx.check(sa.elem.dim == AKF.dim, 'C09.U1', gat, lab + ' spike amplitudes dimension', '%s: spike amplitude = unwhitened template amplitude x stored amplitude x unit factor (%s)' % (lab, sa.elem),
                       '%s: spike amplitudes have dimension %s, expected amp*ka*F (unwhitened waveform x stored amplitude x unit factor)' % (lab, sa.elem), value=getattr(sa, 'elem', sa))
+            disp = [nm_ for nm_, x_ in (('spike amplitudes', sa), ('rescaled waveforms', tv), ('template amplitudes', ta)) if isinstance(x_, Arr) and isinstance(x_.elem, Q) and 'display-scale' in x_.elem.tags]
+            if disp:
+                ctx.violated('C09.U1', gat, lab + ' display scaling', '%s: the %s carry the display option template_scaling (the unwhitening goes through a helper that multiplies by it): the values '
+                             'in physical units are off by that factor whenever the option is set' % (lab, ', '.join(disp)))
+            else:
+                ctx.holds('C09.U1', gat, '%s: no display option (template_scaling) enters the amplitudes in physical units' % lab, lab + ' display scaling')
             ctx.check({'ptp:Samp', 'max:Chan'} <= set(sa.elem.tags), 'C09.U1', gat, lab + ' spike amplitudes provenance',
                       '%s: the template amplitude is the largest channel peak-to-peak (max over channels of max-min over samples)' % lab,
                       '%s: the template amplitude is %s, expected the max over channels of the peak-to-peak over samples' % (lab, sorted(sa.elem.tags)), value=getattr(sa, 'elem', sa))
